@@ -1,6 +1,7 @@
 import Driver.Proto
 import Driver.ProtoSQ
 import TinyFlux.Model.Codec
+import TinyFlux.Model.IOSteps
 import TinyFlux.Model.DB
 /-! Line protocol → the executable model of the implementation (incl. the generated definitions). -/
 open TinyFlux TinyFlux.Spec TinyFlux.Proto TinyFlux.Model
@@ -102,6 +103,15 @@ def modelLine (s : State) (line : String) : State × String :=
       (s, s!"valid={if s.index.valid then 1 else 0} contents=" ++ showList showPoint s.storage)
     | .list [.atom "reopen"] => (reopen s, "ok unit")
     | .list (.atom "idx" :: rest) => (s, idxLine s rest)
+    | .list [.atom "io", f, opx] =>
+      match parseBool f, parseOp opx with
+      | some fl, some op => (s, "io=" ++ showList id (opStepNames s fl op))
+      | _, _ =>
+        match opx with
+        | .list [.atom "reopen"] =>
+          (s, "io=" ++ showList id (["P.close", "P.open(a)", "P.close", "P.open(r+)", "P.seekEnd"] ++
+                (if s.cfg.autoIndex && !s.storage.isEmpty then ["P.seek0", "P.read"] else [])))
+        | _ => (s, "bad-op")
     | .list (.atom "codec" :: _) => (s, codecLine sx)
     | .list [.atom "eval", q, pt] =>
       match parseQuery q, parsePoint pt with
